@@ -448,6 +448,105 @@ def process(cfgs: List[Dict[str, Any]]) -> Dict[str, Any]:
     return {"fails": fails, "stats": st}
 
 
+# ---------------------------------------------------------------------------------------
+# the typed accessors on parameters that are present (chain PROTOCOL <- BASE-VARIANT <- ECU-VARIANT)
+
+TYPED = [  # (comparam, accessor, conversion of the numeric content, default of the specification)
+    ("CP_CanFuncReqId", "get_can_func_req_id", int, "2015"),
+    ("CP_DoIPLogicalGatewayAddress", "get_doip_logical_gateway_address", int, "4096"),
+    ("CP_DoIPLogicalTesterAddress", "get_doip_logical_tester_address", int, "3584"),
+    ("CP_DoIPLogicalFunctionalAddress", "get_doip_logical_functional_address", int, "58368"),
+    ("CP_DoIPRoutingActivationTimeout", "get_doip_routing_activation_timeout", lambda x: float(x) / 1e6, "2000000"),
+    ("CP_DoIPRoutingActivationType", "get_doip_routing_activation_type", int, "0"),
+    ("CP_TesterPresentTime", "get_tester_present_time", lambda x: float(x) / 1e6, "3000000"),
+    ("CP_CANFDBaudrate", "get_can_fd_baudrate", int, "2000000"),
+    ("CP_Baudrate", "get_can_baudrate", int, "500000"),
+]
+
+
+def typed_accessor_docs() -> Tuple[List[str], Dict[int, Dict[str, str]]]:
+    """-> documents, and per layer the value in effect for every parameter ("" = left out: the default applies)"""
+    def cp(oid: str, name: str, default: str) -> str:
+        return og.tag("COMPARAM", og.sn(name) + f"<PHYSICAL-DEFAULT-VALUE>{default}</PHYSICAL-DEFAULT-VALUE>" +
+                      og.ref("DATA-OBJECT-PROP-REF", "CST.DOP"),
+                      **{"ID": oid, "PARAM-CLASS": "COM", "CPTYPE": "STANDARD", "CPUSAGE": "ECU-COMM"})
+    cx = og.tag("COMPLEX-COMPARAM", og.sn("CP_UniqueRespIdTable") + cp("CST.s1", "CP_CanPhysReqId", "2016") +
+                cp("CST.s2", "CP_CanRespUSDTId", "2024") + cp("CST.s3", "CP_DoIPLogicalEcuAddress", "77"),
+                **{"ID": "CST.cpx", "PARAM-CLASS": "UNIQUE_ID", "CPTYPE": "STANDARD", "CPUSAGE": "ECU-COMM"})
+    simple = "".join(cp(f"CST.{n}", n, d) for (n, _a, _c, d) in TYPED) + cp("CST.CP_CANFDTxMaxDataLength", "CP_CANFDTxMaxDataLength", "TX_DL=8")
+    subset = og.comparam_subset_doc("CST", "CST", og.tag("COMPARAMS", simple) + og.tag("COMPLEX-COMPARAMS", cx) +
+                                    og.tag("DATA-OBJECT-PROPS", og.dop("CST.DOP", "u32", og.dct_standard("A_UINT32", 32))))
+
+    def ref(name: str, value: str) -> str:
+        return og.tag("COMPARAM-REF", f"<SIMPLE-VALUE>{value}</SIMPLE-VALUE>", **{"ID-REF": f"CST.{name}", "DOCREF": "CST", "DOCTYPE": "COMPARAM-SUBSET"})
+    eff: Dict[int, Dict[str, str]] = {1: {}, 2: {}, 3: {}}
+    l1 = og.Layer("PROTOCOL", "L1.id", "L1")
+    l1.comparam_spec_ref = og.ref("COMPARAM-SPEC-REF", "CS", "CS", "COMPARAM-SPEC")
+    l2 = og.Layer("BASE-VARIANT", "L2.id", "L2")
+    l3 = og.Layer("ECU-VARIANT", "L3.id", "L3")
+    for k, (n, _a, _c, _d) in enumerate(TYPED):
+        v1 = str(1000 + 7 * k)
+        l1.comparam_refs.append(ref(n, v1))
+        eff[1][n] = eff[2][n] = eff[3][n] = v1
+        if k % 2 == 0:
+            v2 = "" if k == 4 else str(20000 + 13 * k)       # one override leaves the value out
+            l2.comparam_refs.append(ref(n, v2))
+            eff[2][n] = eff[3][n] = v2
+        if k % 3 == 0:
+            v3 = str(300000 + k)
+            l3.comparam_refs.append(ref(n, v3))
+            eff[3][n] = v3
+    l1.comparam_refs.append(ref("CP_CANFDTxMaxDataLength", "CANFD TX_DL=32"))
+    l2.comparam_refs.append(ref("CP_CANFDTxMaxDataLength", "TX_DL = 16"))
+    for (lay, a, b, c) in ((l1, 101, 201, 31), (l3, 103, 203, 33)):
+        lay.comparam_refs.append(og.tag("COMPARAM-REF", og.tag("COMPLEX-VALUE", f"<SIMPLE-VALUE>{a}</SIMPLE-VALUE><SIMPLE-VALUE>{b}</SIMPLE-VALUE>"
+                                                                  f"<SIMPLE-VALUE>{c}</SIMPLE-VALUE>"),
+                                        **{"ID-REF": "CST.cpx", "DOCREF": "CST", "DOCTYPE": "COMPARAM-SUBSET"}))
+    l2.parent_refs.append(og.parent_ref("L1.id", "PROTOCOL", "DLC"))
+    l3.parent_refs.append(og.parent_ref("L2.id", "BASE-VARIANT", "DLC"))
+    return [CS_DOC, subset, og.container("DLC", "DLC", [l1, l2, l3])], eff
+
+
+def typed_accessor_scenario() -> Tuple[List[Tuple[str, Dict[str, Any]]], int]:
+    """every typed accessor on a present parameter returns exactly its numeric content (the closest definition's, or the
+    default of the specification where the value is left out)"""
+    fails: List[Tuple[str, Dict[str, Any]]] = []
+    n = 0
+    docs, eff = typed_accessor_docs()
+    base = {"machine": "Layers", "types": ["PROTOCOL", "BASE-VARIANT", "ECU-VARIANT"], "parents": [[], [1], [2]], "defs": [[], [], []],
+            "ni": [[], [], []], "cps": "typed accessor scenario", "rev": False}
+    try:
+        db = og.load(docs)
+    except Exception as e:  # noqa: BLE001
+        return [("spurious_load_error", {**base, "exc": type(e).__name__, "msg": str(e)[:200]})], 0
+    defaults = {nm: d for (nm, _a, _c, d) in TYPED}
+    fd = {1: True, 2: False, 3: False}                       # CANFD named in the frame length parameter in effect
+    size = {1: 32, 2: 16, 3: 16}
+    ids = {1: (101, 201, 31), 2: (101, 201, 31), 3: (103, 203, 33)}
+    for i in (1, 2, 3):
+        lay = db.diag_layers[f"L{i}"]
+        for proto in (None, "L1"):
+            want: Dict[str, Any] = {}
+            for (nm, acc, conv, _d) in TYPED:
+                raw = eff[i][nm] or defaults[nm]
+                want[acc] = conv(raw)
+            if not fd[i]:
+                want["get_can_fd_baudrate"] = None
+            want.update({"get_max_can_payload_size": size[i], "uses_can": True, "uses_can_fd": fd[i], "get_can_receive_id": ids[i][0],
+                         "get_can_send_id": ids[i][1], "get_doip_logical_ecu_address": ids[i][2]})
+            for acc, w in want.items():
+                n += 1
+                try:
+                    got = getattr(lay, acc)(protocol=proto)
+                except Exception as e:  # noqa: BLE001
+                    fails.append(("accessor_raises", {**base, "layer": i, "name": acc, "protocol": proto or "", "exc": type(e).__name__,
+                                                      "msg": str(e)[:100], "omitted": False}))
+                    continue
+                if got != w or type(got) is not type(w):
+                    fails.append(("accessor_value", {**base, "layer": i, "accessor": acc, "protocol": proto or "", "expected": w, "got": repr(got)}))
+    return fails, n
+
+
 def CP_KEY(cp: Any) -> str:
     return {v_: k_ for k_, v_ in CP_ID.items()}[cp.spec_ref.ref_id]
 
@@ -469,6 +568,12 @@ def check(prop: str, tier: str, replay: Optional[str]) -> int:
     cfgs: List[Dict[str, Any]] = []
     states = trans = 0
     design: Dict[str, Any] = {}
+    if replay and json.loads(open(replay).read()).get("cps") == "typed accessor scenario":
+        tf, tn = typed_accessor_scenario()
+        for (clause, c) in tf:
+            v.fail(clause, c)
+        return v.finish({"states": 1, "transitions": 1, "traces_validated_against_impl": 1, "evaluations": tn, "samples": []},
+                        ["replay of the typed accessor scenario"])
     if replay:
         case = json.loads(open(replay).read())
         want = (case["types"], case["parents"], case["defs"], case["ni"], case["cps"])
@@ -504,6 +609,11 @@ def check(prop: str, tier: str, replay: Optional[str]) -> int:
     with mp.get_context("spawn").Pool(len(chunks), initializer=_init, initargs=(str(REPO),)) as pool:
         outs = pool.map(process, chunks)
     stats: Dict[str, int] = {}
+    if prop == "C15" and not replay:
+        tf, tn = typed_accessor_scenario()
+        for (clause, c) in tf:
+            v.fail(clause, c)
+        stats["typed_accessor_calls"] = tn
     for o in outs:
         for (p, clause, c) in o["fails"]:
             if p in (prop, "*"):      # a valid configuration that does not load fails whichever property is being checked
